@@ -929,6 +929,58 @@ GROWERS = {"add", "update", "append", "extend", "insert", "setdefault", "appendl
 SHRINKERS = {"remove", "discard", "pop", "clear", "difference_update", "intersection_update", "popitem", "popleft", "symmetric_difference_update"}
 
 
+TUPLE = "#T"  # marker: the value is (a collection of) tuples whose components carry their own tags as "<position>@<tag>"
+
+
+class _OrderFlow(Flow):
+    """Tag flow with position-sensitive tuples and generators (local extension of core/flow.py).
+
+    `(subject, verb, sorted(objects))` collected in a loop over a set: the *sequence of tuples* is in set order (tag U on the
+    sequence), the third component stays the sorted list it is.  Unpacking (`for s, v, objs in parts`, `a, b = helper()`, `t[2]`)
+    hands every component its own tags back; the order of the sequence is not a property of the components."""
+
+    def _expr_inner(self, fi, e, env):
+        if isinstance(e, ast.Tuple) and not isinstance(getattr(e, "ctx", None), ast.Store) and not any(isinstance(x, ast.Starred) for x in e.elts):
+            out = {TUPLE}
+            for i, x in enumerate(e.elts):
+                for t in self._expr(fi, x, env):
+                    out.add(f"{i}@{t}")
+            return frozenset(out)
+        if isinstance(e, ast.Subscript) and isinstance(e.slice, ast.Constant) and isinstance(e.slice.value, int) and not isinstance(e.slice.value, bool):
+            base = self._expr(fi, e.value, env)
+            if TUPLE in base:
+                pre = f"{e.slice.value}@"
+                return frozenset(t[len(pre):] for t in base if t.startswith(pre))
+            return self._it(base)
+        if isinstance(e, ast.Yield):
+            v = self._expr(fi, e.value, env) if e.value is not None else frozenset()
+            add = self._col(v) - self.spec.non_absorbed
+            if self.spec.loop_tag and self._yield_in_unordered_loop(fi, e):
+                add = add | {self.spec.loop_tag}
+            self._join_into(self.ret_tags, fi.fq, add)
+            return frozenset()
+        if isinstance(e, ast.YieldFrom):
+            self._join_into(self.ret_tags, fi.fq, self._expr(fi, e.value, env))
+            return frozenset()
+        return super()._expr_inner(fi, e, env)
+
+    def _yield_in_unordered_loop(self, fi, node) -> bool:
+        for a in ancestors(node):
+            if a is fi.node:
+                break
+            if isinstance(a, (ast.For, ast.AsyncFor)) and self._iter_unordered(fi, a.iter):
+                return True
+        return False
+
+    def _assign(self, fi, target, v, env, value, weak=False):
+        if isinstance(target, (ast.Tuple, ast.List)) and TUPLE in v and not (isinstance(value, (ast.Tuple, ast.List)) and len(value.elts) == len(target.elts)) and not any(isinstance(x, ast.Starred) for x in target.elts):
+            for i, el in enumerate(target.elts):
+                pre = f"{i}@"
+                self._assign(fi, el, frozenset(t[len(pre):] for t in v if t.startswith(pre)), env, None, weak)
+            return
+        super()._assign(fi, target, v, env, value, weak)
+
+
 class Order:
     """Which collections carry the arbitrary iteration order of a set (tag flow), shared by the sink rule and the loop rule."""
 
@@ -996,8 +1048,27 @@ class Order:
                     return set()  # sets absorb elements in any order
             return None
 
+        gen_memo: dict[str, bool] = {}
+
+        def calls_generator(f: FuncInfo, e: ast.expr) -> bool:
+            """A call of a generator function: the resolver types it by its (absent) return statements, it is an iterator."""
+            if not isinstance(e, ast.Call):
+                return False
+            try:
+                cs, _how = T.callees(f, e, byname_fallback=False)
+            except Exception:  # noqa: BLE001
+                return False
+            for g in cs:
+                if g.fq not in gen_memo:
+                    gen_memo[g.fq] = not isinstance(g.node, ast.Lambda) and any(isinstance(n, (ast.Yield, ast.YieldFrom)) for n in own_nodes(g.node))
+                if gen_memo[g.fq]:
+                    return True
+            return False
+
         def post(f: FuncInfo, e: ast.expr, tags):
             # the tag describes the *order of a collection*: scalars, strings and repo objects do not carry it
+            if calls_generator(f, e):
+                return tags
             t = T.expr(f, e)
             ms = members(t)
             if ms and all(m[0] in ("cls", "type", "fn") or (m[0] == "b" and m[1] in ("str", "int", "bool", "none", "float", "set", "frozenset")) for m in ms):
@@ -1005,7 +1076,7 @@ class Order:
                 return frozenset(x for x in tags if x not in ("U", "L") and (x != "S" or keep_s))
             return tags
 
-        self.flow = Flow(repo, T, Spec(sources=sources, transfer=transfer, post=post, sort_kills={"U", "S"}, loop_tag="U", unordered_tags=frozenset({"S"}), non_absorbed=frozenset({"S"}), unordered_iter=set_typed, objects_carry=False, opaque={"len", "isinstance", "hasattr", "bool", "any", "all", "sum", "min", "max", "set", "frozenset", "sorted"}))
+        self.flow = _OrderFlow(repo, T, Spec(sources=sources, transfer=transfer, post=post, sort_kills={"U", "S"}, loop_tag="U", unordered_tags=frozenset({"S"}), non_absorbed=frozenset({"S"}), unordered_iter=set_typed, objects_carry=False, opaque={"len", "isinstance", "hasattr", "bool", "any", "all", "sum", "min", "max", "set", "frozenset", "sorted"}))
 
     def unordered(self, f: FuncInfo, e: ast.expr) -> bool:
         """`e` (an expression of f, or of a view of f) is iterated in an order that depends on the hash seed."""
@@ -1157,9 +1228,9 @@ def run_r3(repo: Repo, res: Result, order: "Order | None" = None) -> None:
         good_sinks = {s["f"].name for s in fo.sinks() if s["ok"]} - bad_sinks
         bad_loops = {l["f"].name for l in fo.loops() if l["both"]}
         good_loops = {l["f"].name for l in fo.loops() if not l["both"]} - bad_loops
-        want_bad_sinks = {"joined_directly", "joined_after_copy", "joined_from_loop", "joined_through_helper", "joined_after_copy_of_iterable"}
+        want_bad_sinks = {"joined_directly", "joined_after_copy", "joined_from_loop", "joined_through_helper", "joined_after_copy_of_iterable", "joined_unsorted_inside_tuple", "joined_unsorted_inside_yielded_tuple", "joined_from_generator_over_set"}
         want_bad_loops = {"grow_and_shrink", "grow_and_shrink_through_helper"}
-        if bad_sinks != want_bad_sinks or not {"joined_sorted", "joined_after_inplace_sort"} <= good_sinks:
+        if bad_sinks != want_bad_sinks or not {"joined_sorted", "joined_after_inplace_sort", "joined_sorted_inside_tuple", "joined_sorted_inside_yielded_tuple"} <= good_sinks:
             raise AnalysisError(f"C15.R3 fixture: unordered text sinks not recognised exactly (flagged {sorted(bad_sinks)}, want {sorted(want_bad_sinks)}; accepted {sorted(good_sinks)})")
         if bad_loops != want_bad_loops or not {"two_passes"} <= good_loops or "ordered_pass" in bad_loops:
             raise AnalysisError(f"C15.R3 fixture: order-dependent loop bodies not recognised exactly (flagged {sorted(bad_loops)}, want {sorted(want_bad_loops)}; accepted {sorted(good_loops)})")
